@@ -1,7 +1,20 @@
 import Oracle.Proto
-/-! Oracle suites of property C11 (registered in Oracle/Main.lean through `suites`). -/
+import Oracle.StreamGate
+import Oracle.Link
+import Oracle.Codec
+import Oracle.Remote
+/-! Oracle suites of property C11. -/
 namespace Oracle.C11
 
-def suites : List (String × Suite) := []
+def suites : List (String × Suite) := [
+  ("streamgate", Oracle.StreamGate.model),
+  ("streamgate-judge", Oracle.StreamGate.judge),
+  ("streamgate-facts", Oracle.StreamGate.factsSuite),
+  ("link", Oracle.Link.model),
+  ("link-spec", Oracle.Link.spec),
+  ("codec", Oracle.Codec.model),
+  ("remote", Oracle.Remote.model),
+  ("remote-judge", Oracle.Remote.judge)
+]
 
 end Oracle.C11
